@@ -39,6 +39,10 @@ pub struct Pv {
     /// training with this value is pathological (e.g. a solver that can only stop at its
     /// 10^7-iteration cap): verdict oracles are run, the fit / transform calls are not
     pub skip_ops: bool,
+    /// history dimension only: the builder that is being re-used already holds this value, so its
+    /// setter is NOT called again when the builder is moved to this point
+    #[serde(default)]
+    pub keep: bool,
 }
 
 /// One grid point of one builder.
@@ -50,6 +54,11 @@ pub struct Case {
 }
 
 impl Case {
+    /// true when at least one of the named parameters has to be (re-)set to reach this point: always for
+    /// a fresh builder, only for the values that differ from the builder's current ones in a history
+    pub fn moved(&self, names: &[&str]) -> bool {
+        names.iter().any(|n| !self.pv(n).keep)
+    }
     pub fn pv(&self, name: &str) -> &Pv {
         self.vals.iter().find(|p| p.name == name).unwrap_or_else(|| panic!("case has no parameter {}", name))
     }
@@ -160,13 +169,19 @@ pub struct Outcome {
     pub trained: u64,
     pub fit_errors_on_valid: u64,
     pub panics_on_valid_both_forms: u64,
+    /// history dimension (explicit-state exploration of the builder): states / transitions / histories
+    pub hist_states: u64,
+    pub hist_transitions: u64,
+    pub hist_traces: u64,
+    pub hist_fit_calls: u64,
+    pub hist_not_comparable: u64,
     /// consistency-only facts worth listing in the evidence: "builder param=class -> accepted|rejected"
     pub notes: Vec<String>,
 }
 
 impl Outcome {
     pub fn new() -> Self {
-        Outcome { viols: vec![], expected: None, observed_ok: None, n_invalid_params: 0, ops_run: 0, ops_skipped: 0, trained: 0, fit_errors_on_valid: 0, panics_on_valid_both_forms: 0, notes: vec![] }
+        Outcome { viols: vec![], expected: None, observed_ok: None, n_invalid_params: 0, ops_run: 0, ops_skipped: 0, trained: 0, fit_errors_on_valid: 0, panics_on_valid_both_forms: 0, hist_states: 0, hist_transitions: 0, hist_traces: 0, hist_fit_calls: 0, hist_not_comparable: 0, notes: vec![] }
     }
 }
 
@@ -197,7 +212,7 @@ pub fn enumerate(spec: &BuilderSpec) -> Vec<Case> {
                 .map(|(pi, &vi)| {
                     let p = &spec.params[pi];
                     let (sym, class, doc, skip) = p.vals[vi];
-                    Pv { name: p.name.to_string(), class: class.to_string(), val: resolve(sym, float), doc, skip_ops: skip }
+                    Pv { name: p.name.to_string(), class: class.to_string(), val: resolve(sym, float), doc, skip_ops: skip, keep: false }
                 })
                 .collect();
             out.push(Case { builder: spec.name.to_string(), float: float.to_string(), vals });
@@ -216,6 +231,11 @@ pub struct Op<'a, P: ParamGuard> {
     pub checked: Box<dyn Fn(&P::Checked) -> Result<String, String> + 'a>,
     /// Debug of the operation's error type built from the parameter error (`E::from(e)`)
     pub lift: Box<dyn Fn(P::Error) -> String + 'a>,
+}
+
+/// Fixes the argument types of a setter-chain closure from the constructor closure.
+pub fn setter<P, S: Fn(P, &Case) -> P>(_witness: &dyn Fn() -> P, f: S) -> S {
+    f
 }
 
 /// Builds an `Op`; the first argument only fixes the builder type so that the closures' argument
@@ -244,10 +264,16 @@ fn variant_of(dbg: &str) -> String {
 }
 
 /// Runs all oracles of the property on one grid point.
+///
+/// `base` constructs the builder (constructor arguments of the point), `set` applies every setter of
+/// the point to an EXISTING builder value: a fresh builder is `set(base(), case)`, a re-used one is
+/// `set(<builder that was configured at another point and checked / fitted / cloned>, case)`.
 pub fn judge<P: ParamGuard>(
     case: &Case,
     spec: &BuilderSpec,
-    make: &dyn Fn() -> P,
+    base: &dyn Fn() -> P,
+    set: &dyn Fn(P, &Case) -> P,
+    clone: Option<&dyn Fn(&P) -> P>,
     snap: &dyn Fn(&P) -> String,
     csnap: &dyn Fn(&P::Checked) -> String,
     ops: Vec<Op<'_, P>>,
@@ -255,6 +281,7 @@ pub fn judge<P: ParamGuard>(
 ) where
     P::Error: std::fmt::Debug,
 {
+    let make = &|| set(base(), case);
     let b = spec.name;
     let cj = |op: &str| -> Value {
         let mut v = serde_json::to_value(case).unwrap();
@@ -368,19 +395,18 @@ pub fn judge<P: ParamGuard>(
     }
 
     // ---- fit / fit_with / transform on the unchecked builder ----
-    if out.expected == Some(false) && observed_ok {
-        // the guard let a documented-invalid point through: already reported; do not train on it
+    // the guard let a documented-invalid point through: already reported; do not train on it.
+    // Likewise no training on values flagged skip_ops.
+    let run_ops = !(out.expected == Some(false) && observed_ok) && !(case.vals.iter().any(|p| p.skip_ops) && observed_ok);
+    let mut fresh_u: Vec<OpRes> = Vec::new();
+    if !run_ops {
         out.ops_skipped += ops.len() as u64;
-        return;
     }
-    if case.vals.iter().any(|p| p.skip_ops) && observed_ok {
-        out.ops_skipped += ops.len() as u64;
-        return;
-    }
-    for op in &ops {
+    for op in ops.iter().filter(|_| run_ops) {
         out.ops_run += 1;
         let u = guarded(|| (op.unchecked)(&make()).map_err(norm));
         let u2 = guarded(|| (op.unchecked)(&bref).map_err(norm));
+        fresh_u.push(u.clone());
         if observed_ok {
             let c = match make().check() {
                 Ok(c) => c,
@@ -437,6 +463,176 @@ pub fn judge<P: ParamGuard>(
                         }
                     }
                 }
+            }
+        }
+    }
+
+    // ---- history dimension: the verdict must not depend on what the builder value went through ----
+    run_history(case, spec, base, set, clone, snap, csnap, &ops, &r_ref, &s0, &fresh_u, run_ops, &point, out);
+}
+
+type OpRes = Result<Result<String, String>, String>;
+
+/// A fixed point of the builder's table with a documented verdict: valid (every value the default /
+/// "inside" entry) or invalid (the valid point with the LAST parameter that has an invalid entry moved
+/// to its first invalid value).
+pub fn reference_point(spec: &BuilderSpec, float: &str, invalid: bool) -> Option<Case> {
+    let mut vals: Vec<Pv> = Vec::new();
+    for p in &spec.params {
+        let cands: Vec<&(Sym, &'static str, Doc, bool)> = p.vals.iter().filter(|v| v.2 == Doc::Valid && !v.3).collect();
+        let pick = cands
+            .iter()
+            .find(|v| ["unset", "none", "default"].contains(&v.1))
+            .or_else(|| cands.iter().find(|v| v.1 == "inside"))
+            .or_else(|| cands.first())?;
+        vals.push(Pv { name: p.name.to_string(), class: pick.1.to_string(), val: resolve(pick.0, float), doc: pick.2, skip_ops: pick.3, keep: false });
+    }
+    if invalid {
+        let (i, bad) = spec.params.iter().enumerate().rev().find_map(|(i, p)| p.vals.iter().find(|v| v.2 == Doc::Invalid).map(|v| (i, v)))?;
+        vals[i] = Pv { name: spec.params[i].name.to_string(), class: bad.1.to_string(), val: resolve(bad.0, float), doc: bad.2, skip_ops: bad.3, keep: false };
+    }
+    Some(Case { builder: spec.name.to_string(), float: float.to_string(), vals })
+}
+
+pub const HISTORIES: [&str; 4] = ["checked_then_moved", "checked_cloned_then_moved", "fitted_then_moved", "rejected_then_moved"];
+
+/// Explicit-state exploration of the builder as a tiny state machine. State = (builder value,
+/// what it went through); actions = configure at the valid reference point A (or the invalid one A'),
+/// check_ref, fit on the unchecked builder, clone, apply the setters of the grid point B. Every
+/// history ends at B, where check_ref(), check() and the unchecked training calls must give exactly
+/// what the freshly built builder at B gives.
+#[allow(clippy::too_many_arguments)]
+fn run_history<P: ParamGuard>(
+    case: &Case,
+    spec: &BuilderSpec,
+    base: &dyn Fn() -> P,
+    set: &dyn Fn(P, &Case) -> P,
+    clone: Option<&dyn Fn(&P) -> P>,
+    snap: &dyn Fn(&P) -> String,
+    csnap: &dyn Fn(&P::Checked) -> String,
+    ops: &[Op<'_, P>],
+    r_fresh: &Result<String, String>,
+    s_fresh: &str,
+    fresh_u: &[OpRes],
+    run_ops: bool,
+    point: &str,
+    out: &mut Outcome,
+) where
+    P::Error: std::fmt::Debug,
+{
+    let b = spec.name;
+    let a = match reference_point(spec, &case.float, false) {
+        Some(a) => a,
+        None => return,
+    };
+    let bad = reference_point(spec, &case.float, true);
+    // moving a builder from `from` to this point calls only the setters of the values that differ
+    // (a user does not re-set what the builder already holds; re-setting everything would also hide a
+    // stale "already checked" flag that some setters clear and others do not)
+    let same = |x: &Val, y: &Val| match (x, y) {
+        (Val::F(a), Val::F(b)) => a.to_bits() == b.to_bits(),
+        (Val::OptF(Some(a)), Val::OptF(Some(b))) => a.to_bits() == b.to_bits(),
+        _ => x == y,
+    };
+    let moved_from = |from: &Case| -> Case {
+        let mut c = case.clone();
+        for p in c.vals.iter_mut() {
+            p.keep = same(&p.val, &from.pv(&p.name).val);
+        }
+        c
+    };
+    let from_a = moved_from(&a);
+    let from_bad = bad.as_ref().map(|b| moved_from(b));
+    let build = |k: usize| -> Option<P> {
+        match k {
+            0 => {
+                let p = set(base(), &a);
+                let _ = p.check_ref().is_ok();
+                Some(set(p, &from_a))
+            }
+            1 => clone.map(|cl| {
+                let p = set(base(), &a);
+                let _ = p.check_ref().is_ok();
+                let q = cl(&p);
+                set(q, &from_a)
+            }),
+            2 => ops.first().map(|op| {
+                let p = set(base(), &a);
+                let _ = (op.unchecked)(&p).is_ok();
+                set(p, &from_a)
+            }),
+            _ => bad.as_ref().map(|bc| {
+                let p = set(base(), bc);
+                let _ = p.check_ref().is_ok();
+                set(p, from_bad.as_ref().unwrap())
+            }),
+        }
+    };
+    for (k, hname) in HISTORIES.iter().enumerate() {
+        let p = match guarded(|| build(k)) {
+            Ok(Some(p)) => p,
+            _ => continue, // history not available for this builder (no Clone / no invalid entry) or A itself panics
+        };
+        let (st, tr) = [(3, 2), (4, 3), (3, 2), (3, 2)][k];
+        out.hist_states += st;
+        out.hist_transitions += tr;
+        let at = format!("history.{}", hname);
+        let cj = || -> Value {
+            let mut v = serde_json::to_value(case).unwrap();
+            let o = v.as_object_mut().unwrap();
+            o.insert("at".into(), json!(at));
+            o.insert("history".into(), json!({"name": hname, "first_configured_at": if k == 3 { bad.as_ref() } else { Some(&a) }.map(|c| c.vals.iter().map(|p| format!("{}={:?}", p.name, p.val)).collect::<Vec<_>>())}));
+            v
+        };
+        // the re-used builder must hold the parameters of B (otherwise the harness' setter chain does
+        // not reach B from A for this builder: not comparable, counted)
+        let sp = snap(&p);
+        if !s_fresh.is_empty() && sp != s_fresh {
+            out.hist_not_comparable += 1;
+            continue;
+        }
+        out.hist_traces += 1;
+        let rh = guarded(|| p.check_ref().map(|c| csnap(c)).map_err(|e| format!("{:?}", e)));
+        let rv = guarded(|| build(k).map(|q| q.check().map(|c| csnap(&c)).map_err(|e| format!("{:?}", e))));
+        let rv = match rv {
+            Ok(Some(r)) => Ok(r),
+            Ok(None) => continue,
+            Err(e) => Err(e),
+        };
+        let mut agrees = true;
+        for (form, r) in [("check_ref", &rh), ("check", &rv)] {
+            match r {
+                Err(pmsg) => {
+                    agrees = false;
+                    out.viols.push(Violation::new(format!("{}.history.{}.{}_panic", b, hname, form), format!("{}() on the re-used builder ({}) panicked: {} at point {}", form, hname, pmsg, point), cj()));
+                }
+                Ok(r) if r != r_fresh => {
+                    agrees = false;
+                    let sig = if r.is_ok() != r_fresh.is_ok() { "verdict_differs_from_fresh" } else { "result_differs_from_fresh" };
+                    out.viols.push(Violation::new(
+                        format!("{}.history.{}.{}_{}", b, hname, form, sig),
+                        format!("{}() on a builder with history `{}` moved to this point gives {:?}, on a freshly built builder with the same values {:?}; point {}", form, hname, r, r_fresh, point),
+                        cj(),
+                    ));
+                }
+                _ => {}
+            }
+        }
+        if !agrees || !run_ops {
+            continue;
+        }
+        // training calls on the re-used builder: every form for the first history, the first form for the others
+        let n_ops = if k == 0 { ops.len() } else { 1.min(ops.len()) };
+        for (i, op) in ops.iter().take(n_ops).enumerate() {
+            let Some(want) = fresh_u.get(i) else { continue };
+            out.hist_fit_calls += 1;
+            let got = guarded(|| (op.unchecked)(&p).map_err(norm));
+            if &got != want {
+                out.viols.push(Violation::new(
+                    format!("{}.history.{}.{}.differs_from_fresh", b, hname, op.name),
+                    format!("{} on the unchecked re-used builder ({}) gave {} but on a freshly built builder {} at point {}", op.name, hname, show(&got), show(want), point),
+                    cj(),
+                ));
             }
         }
     }
